@@ -4,13 +4,17 @@ authenticators (harness/ext/c12*.go) and checkAPIKey (package main, overlay
 driver), in two phases: the implementation runs first and reports, next to
 its answer, the clock readings and the real HMAC values of exactly the data
 it had to sign or verify; the extracted model is then evaluated on the same
-request with those values as its MAC function."""
+request with those values as its MAC function.
+Token RE-ISSUANCE on {login} (Session.login / onLogin, reset flow, temporary tokens of {acc};
+model Sys/Relogin.v, theorems c12_relogin_* / c12_tmp_token_*) is the part in c12relogin.py:
+package-main driver zz_verif_c12x_test.go, histories of logins, laws relogin-* / reset-* / tmp-token-*."""
 import base64
 import hashlib
 import hmac
 import json
 import struct
 import vlib
+from props import c12relogin
 
 KEY1 = bytes(range(1, 33))
 KEY2 = bytes(range(101, 141))
@@ -258,6 +262,8 @@ def split_answer(line):
 def evaluate(ctx, cases):
     """Phase 1: implementation (two drivers).  Phase 2: model with the aux values.  Returns
     (results, aux, model) lists aligned with cases, or raises RuntimeError(kind, text)."""
+    if not cases:
+        return [], [], []
     main_idx = [i for i, c in enumerate(cases) if c.startswith("K ")]
     ext_idx = [i for i, c in enumerate(cases) if not c.startswith("K ")]
     raw = [None] * len(cases)
@@ -355,7 +361,10 @@ def mon_token(c, r, a, fails):
                 fails.append(("token-yields-issued", c, "issued for %s, yields %s" % ((uid0, lvl0, feat0), ok[:3])))
             L = int(d["L"][0])
             asked = L if L != 0 else int(w[3]) * SEC
-            if "rl" in d and int(d["rl"][0]) > asked:
+            # GenSecret rounds the expiry instant to the NEAREST millisecond (Round(time.Millisecond)): up to half a
+            # millisecond more than asked is the code's stated arithmetic (c12_token_never_outlives has a whole second of
+            # slack); without it the law fired when the rounding crossed a second boundary (seen once in ~15 runs)
+            if "rl" in d and int(d["rl"][0]) > asked + 500000:
                 fails.append(("token-never-outlives", c, "remaining validity %s ns exceeds the %d ns asked for" % (d["rl"][0], asked)))
     elif mut[0] == "craft":
         if ser != vserial:
@@ -528,9 +537,14 @@ def run(ctx):
             ctx.violation("corr", "harness-build-broken", "%s no longer builds against the repository: %s" % (what, out[-1500:]),
                           {"correspondence": "build of " + what})
             ctx.finish()
+    relogin_scns = None
     if ctx.replay:
         rp = json.load(open(ctx.replay))
-        cases = [r["case"] for r in [rp["replay"]] + rp.get("more_cases", []) if isinstance(r, dict) and "case" in r]
+        reps = [r for r in [rp["replay"]] + rp.get("more_cases", []) if isinstance(r, dict)]
+        cases = [r["case"] for r in reps if "case" in r]
+        relogin_scns = [c12relogin.Scn.from_lines(r["scenario"]) for r in reps if "scenario" in r]
+        for k, sc in enumerate(relogin_scns):
+            sc.id = "%s_r%d" % (sc.id, k)
     else:
         cases = gen_cases(ctx)
     cases = list(dict.fromkeys(cases))
@@ -575,6 +589,9 @@ def run(ctx):
                       % (len(open_mism), len(cases), c[:400], i[:400], m[:400], searched),
                       {"correspondence": "projection " + c.split()[0], "case": c, "impl": i, "model": m,
                        "more": [{"case": x, "impl": y, "model": z} for x, y, z in open_mism[1:10]]})
+    # token re-issuance on {login}: Session.login / onLogin (Sys/Relogin.v), package-main driver
+    if relogin_scns is None or relogin_scns:
+        ctx.coverage["relogin"] = c12relogin.run(ctx, relogin_scns)
     kinds, outs = {}, {}
     for c in cases:
         k = c.split()[0]
@@ -597,7 +614,7 @@ def run(ctx):
                 "cache; basic: sequences of AddRecord / Authenticate / UpdateRecord / time steps over logins differing in case, "
                 "compared op by op and on the final table; strings.ToLower idempotence on all 0x110000 code points. "
                 "non-trivial = accepted by the implementation",
-        "samples": [{"case": c[:300], "impl": table[c][:300]} for c in (cases[:2] + ctx.rng.sample(cases, min(6, len(cases))))],
+        "samples": [{"case": c[:300], "impl": table[c][:300]} for c in (cases[:2] + ctx.rng.sample(cases, min(6, len(cases))))] if cases else [],
         "traces_validated_against_impl": len(cases), "correspondence_mismatches": len(open_mism),
         "monitor_failures": len(fails) + len(found), "search_pool": searched,
         "input_distribution": {"by_request_kind": kinds, "by_outcome": outs},
@@ -610,6 +627,8 @@ def run(ctx):
             "wall clock: read by the driver around each call and passed to the model; expiry decisions are kept >= 1 s away from the boundary by construction of the cases",
             "tools/props/c12.py monitors (python restatement of the theorems incl. an independent HMAC computation, evaluated on the implementation's answers)",
             "net/http per-request panic recovery (the reason the API-key panic is a refusal by crash and not a server crash) is not modelled",
+            "token re-issuance part (tools/props/c12relogin.py): the environment of each login - user record in state OK, a required validator left unvalidated - is computed by the plugin from the fixture of zz_verif_c11_test.go / zz_verif_c12x_test.go and given to the model as input; the verdict of the code authenticator on the reset flow's codes is a python restatement of Pure/Code.v (single use, max_retries 3); the fresh authenticator instances are made by reflection from the registered singletons and installed behind store.Store.GetLogicalAuthHandler by a wrapper of store.Store",
+            "promptness premise of c12_relogin_restricted_step / c12_relogin_chain (the clock readings of one login less than 0.9995 s apart) cannot be enforced without a clock hook: the laws allow the measured wall time of the dispatch instead, and the model is evaluated at both ends of the measured bracket",
         ],
     })
     ctx.finish()
